@@ -40,7 +40,8 @@ Inductive mop :=
          nonce_m: what epoch.Generate() returns inside the memory broker *)
 | MClear (ch : string)
 | MTick (ms : N)
-| MCleanup (now : N) (node : string).
+| MCleanup (now : N) (node : string)
+| MStats (ch : string).
       (* one key-expiry sweep at time [now] (RedisMapBroker.runCleanupCycle / mapHub.expireKeysIteration);
          node: the Redis broker's node id (new_epoch_if_empty of the batch-remove script) *)
 
@@ -54,6 +55,7 @@ Inductive mres :=
 | MUpd (off : N) (epoch : string) (suppressed : bool) (reason : string) (cur : option (N * string))
 | MState (pubs : list spub) (off : N) (epoch : string)
 | MStream (pubs : list tpub) (off : N) (epoch : string)
-| MUnit.
+| MUnit
+| MCount (n : N).                                  (* MapStats.NumKeys *)
 
 Definition default_idem_ms : Z := 300000.
